@@ -570,7 +570,7 @@ def replay(case):
                     continue
                 return [Discrepancy("empty_dict_printed", f"dumps wrote text for an auto-created empty dict at {step['key']}", case)]
             if step["op"] == "set":
-                o[step["key"]] = step["value"]
+                o[step["key"]] = tuple(step["value"]) if step.get("tuple") else step["value"]
         o = dict(options.DEFAULT)
         o.pop("separate_complex_types")
         o.update(case.get("options", {}))
